@@ -80,7 +80,8 @@ def replay_model(E, log, model):
 
 
 # ----------------------------------------------------------------------------- Container
-def fam_container(E, n):
+def fam_container(E, n, cancels=False):
+    patience = E.int('patience', 0, 10) if cancels else None      # process 0 gives up waiting
     cap = E.int('cap', 1, 10)
     init = E.int('init', 0, 10)
     E.assume(LE(init, cap))
@@ -99,7 +100,14 @@ def fam_container(E, n):
         registry[id(req)] = (i, req)      # keeps req alive: no id reuse
         if req.triggered:
             log(i, 'grant', None)          # granted inside the constructor, before registration
-        yield req
+        if cancels and i == 0:
+            yield req | env.timeout(patience)
+            if not req.triggered:
+                log(i, 'gave-up')
+                req.cancel()
+                return
+        else:
+            yield req
         log(i, 'resumed')
         E.prove(AND(GE(box.level, 0), LE(box.level, cap)), 'level-within-bounds',
                 ('level %r, capacity %r', box.level, cap))
@@ -109,9 +117,20 @@ def fam_container(E, n):
             self.level = init
             self.q = {0: [], 1: []}
             self.granted = []
+            # a queue is 'stale' after a cancellation until something re-evaluates it: a new
+            # request of its own kind or a completed operation of the other kind
+            self.stale = {0: False, 1: False}
 
         def request(self, i, t):
             self.q[kinds[i]].append(i)
+            self.stale[kinds[i]] = False
+
+        def gave_up(self, i, t):
+            # a cancellation is not a trigger: what it unblocks is served with the next
+            # request or completed operation (as in SimPy)
+            if i in self.q[kinds[i]]:
+                self.q[kinds[i]].remove(i)
+            self.stale[kinds[i]] = True
 
         def fits(self, i):
             return GE(cap - self.level, amt[i]) if kinds[i] == 0 else GE(self.level, amt[i])
@@ -127,10 +146,11 @@ def fam_container(E, n):
             q.pop(0)
             self.level = self.level + amt[i] if kinds[i] == 0 else self.level - amt[i]
             self.granted.append(i)
+            self.stale[1 - kinds[i]] = False
 
         def end_of_step(self, t):
             for k in (0, 1):
-                if self.q[k]:
+                if self.q[k] and not self.stale[k]:
                     E.prove(NOT(self.fits(self.q[k][0])),
                             'grantable-head-request-is-granted-within-the-time-step',
                             ('request %r (amount %r) still pending after time step %r at level %r',
@@ -146,7 +166,9 @@ def fam_container(E, n):
             ('level %r, model %r', box.level, model.level))
     E.prove(AND(GE(box.level, 0), LE(box.level, cap)), 'level-within-bounds')
     for i in model.granted:
-        E.prove(log.has(i, 'resumed'), 'granted-process-resumes')
+        E.prove(log.has(i, 'resumed') or (cancels and i == 0), 'granted-process-resumes')
+    if log.has(0, 'gave-up'):
+        E.reach('gave-up')
     if model.q[0] or model.q[1]:
         E.reach('pending-at-end')
     if len(model.granted) > 1:
@@ -419,6 +441,9 @@ Log.of_event = _of_event
 FAMILIES = [
     Family('container', fam_container, quick=dict(n=3), thorough=dict(n=4),
            reach=['pending-at-end', 'several-grants'], bounds='Container, 3 (thorough 4) requests'),
+    Family('container_cancel', fam_container, quick=dict(n=3, cancels=True),
+           thorough=dict(n=4, cancels=True), reach=['gave-up'],
+           bounds='Container; the request of process 0 is cancelled after a symbolic patience'),
     Family('store', fam_store, quick=dict(n=3, flavour=PLAIN), thorough=dict(n=4, flavour=PLAIN),
            reach=['item-delivered'], bounds='Store'),
     Family('priority_store', fam_store, quick=dict(n=3, flavour=PRIORITY),
